@@ -769,7 +769,7 @@ def run(c):
     # whether reb_simulation_synchronize ran since the previous step.  Model: `checkExit` synchronizes exactly in the two branches that continue
     # with status LAST_STEP, so step k (k >= 1) must start synchronized  <=>  the heartbeat after it sees status LAST_STEP.
     sync_stats = {"steps": 0, "synchronized_starts": 0, "mismatch": 0}
-    nF = 40 if thorough else 8
+    nF = 120 if thorough else 24
     for rep in range(nF):
         rng = c.rng.fork()
         t0, dt, tmax, fam = gen_triple(rng)
